@@ -124,35 +124,74 @@ Proof.
     rewrite Hlen. repeat split; reflexivity.
 Qed.
 
-(** ** DoStream / DoMultiStream *)
+(** ** DoStream / DoMultiStream (the repaired code) *)
 Lemma do_stream_cases : forall c,
-  (c_ctx_done c = true /\ do_stream c = Ok (mkStream 0 (Some ECtxDone) false, [], c_real c)) \/
+  (c_ctx_done c = true /\ do_stream c = Ok (mkStream 0 (Some ECtxDone) false, [PStore], false)) \/
   (c_ctx_done c = false /\ c_state c = 1 /\ do_stream c = Panic) \/
   (c_ctx_done c = false /\ c_state c = 0 /\ c_flush_ok c = true /\ do_stream c = Ok (mkStream (c_ncmd c) None true, [], false)) \/
   (c_ctx_done c = false /\ c_state c = 0 /\ c_flush_ok c = false /\ do_stream c = Ok (mkStream 0 (Some EPipe) false, [PClose; PStore], false)) \/
   (c_ctx_done c = false /\ c_state c <> 0 /\ c_state c <> 1 /\ do_stream c = Ok (mkStream 0 (Some EPipe) false, [PStore], false)).
 Proof.
-  intros c. unfold do_stream. destruct (c_ctx_done c); [left; auto|right].
+  intros c. unfold do_stream, do_stream_gen. destruct (c_ctx_done c); [left; auto|right].
   destruct (c_state c =? 1) eqn:E1; [left; apply N.eqb_eq in E1; auto|right].
   destruct (c_state c =? 0) eqn:E0.
   - apply N.eqb_eq in E0. destruct (c_flush_ok c); [left|right; left]; auto.
   - right; right. apply N.eqb_neq in E0, E1. auto.
 Qed.
 
-(** the wire a call took from the pool is stored exactly once over the life of the call — unless the context was
-    already done at the check in DoStream, in which case it is never stored *)
+(** the wire a call took from the pool is stored exactly once over the life of the call, on every path: the early
+    return on a done context, a pipe that is closing, a failed flush, and the drained stream whatever its replies *)
 Theorem lifetime_store : forall c rs outs evs leak,
   (0 < c_ncmd c)%nat -> (c_ncmd c <= length rs)%nat -> forallb sres_wf rs = true ->
   lifetime c rs = Ok (outs, evs, leak) ->
-  (c_ctx_done c = false -> count_store evs = 1%nat /\ leak = false) /\
-  (c_ctx_done c = true -> evs = [] /\ leak = c_real c /\ outs = []).
+  count_store evs = 1%nat /\ leak = false /\ (c_ctx_done c = true -> evs = [PStore] /\ outs = []).
 Proof.
-  intros c rs outs evs leak Hn Hl Hwf H. unfold lifetime in H.
+  intros c rs outs evs leak Hn Hl Hwf H. unfold lifetime, lifetime_gen in H. fold (do_stream c) in H.
   destruct (do_stream_cases c) as [[Hc E]|[[Hc [_ E]]|[[Hc [_ [_ E]]]|[[Hc [_ [_ E]]]|[Hc [_ [_ E]]]]]]]; rewrite E in H; try discriminate.
-  - rewrite drain_done in H by reflexivity. injection H as <- <- <-. split; [congruence|auto].
+  - rewrite drain_done in H by reflexivity. injection H as <- <- <-. cbn. repeat split; auto.
   - pose proof (store_once (c_ncmd c) rs true Hn Hl Hwf) as HS.
     destruct (drain (S (length rs)) (mkStream (c_ncmd c) None true) rs) as [[[s' o] e] rem]. injection H as <- <- <-.
-    destruct HS as [S1 _]. split; [intros _; cbn; auto|congruence].
-  - rewrite drain_done in H by reflexivity. injection H as <- <- <-. split; [intros _; auto|congruence].
-  - rewrite drain_done in H by reflexivity. injection H as <- <- <-. split; [intros _; auto|congruence].
+    destruct HS as [S1 _]. cbn. repeat split; auto; congruence.
+  - rewrite drain_done in H by reflexivity. injection H as <- <- <-. cbn. repeat split; auto; congruence.
+  - rewrite drain_done in H by reflexivity. injection H as <- <- <-. cbn. repeat split; auto; congruence.
+Qed.
+
+(** the connection goes back to the idle list exactly when it is still good: no error latched, and either nothing was
+    sent (done context) or everything was flushed and every reply read was consumed cleanly *)
+Definition recycled (c : call) (rs : list sres) : bool :=
+  negb (wire_err c) &&
+  (c_ctx_done c || (c_flush_ok c && match first_unclean (firstn (c_ncmd c) rs) with None => true | Some _ => false end)).
+
+(** the pool's books after the call: the pool accounts for exactly the connections on its idle list — one when the
+    wire was recycled, none otherwise (a closed wire gave its slot back; the made-up dead pipe never had one) *)
+Theorem lifetime_books : forall c rs outs evs leak,
+  (0 < c_ncmd c)%nat -> (c_ncmd c <= length rs)%nat -> forallb sres_wf rs = true -> call_wf c = true ->
+  lifetime c rs = Ok (outs, evs, leak) ->
+  books c evs = if recycled c rs then (1, 1)%nat else (0, 0)%nat.
+Proof.
+  intros c rs outs evs leak Hn Hl Hwf Hcw H. unfold lifetime, lifetime_gen in H. fold (do_stream c) in H.
+  unfold books, recycled, wire_noslot. unfold call_wf in Hcw.
+  destruct (do_stream_cases c) as [[Hc E]|[[Hc [_ E]]|[[Hc [H0 [Hf E]]]|[[Hc [H0 [Hf E]]]|[Hc [H0 [_ E]]]]]]]; rewrite E in H; try discriminate.
+  - rewrite drain_done in H by reflexivity. injection H as <- <- <-. rewrite Hc. cbn [app pool_after orb].
+    destruct (wire_err c); cbn [negb andb].
+    + destruct (c_real c); reflexivity.
+    + rewrite orb_false_r in Hcw. rewrite Hcw. reflexivity.
+  - pose proof (store_once (c_ncmd c) rs true Hn Hl Hwf) as HS.
+    destruct (drain (S (length rs)) (mkStream (c_ncmd c) None true) rs) as [[[s' o] e] rem]. injection H as <- <- <-.
+    destruct HS as [_ [_ [HS _]]]. rewrite Hc, Hf. cbn [app orb andb].
+    assert (We : wire_err c = false) by (unfold wire_err; rewrite H0; reflexivity).
+    rewrite We in *. rewrite orb_false_r in Hcw. rewrite Hcw. cbn [negb andb].
+    destruct (first_unclean (firstn (c_ncmd c) rs)); destruct HS as [-> _]; reflexivity.
+  - rewrite drain_done in H by reflexivity. injection H as <- <- <-. rewrite Hc, Hf. cbn [app orb andb].
+    assert (We : wire_err c = false) by (unfold wire_err; rewrite H0; reflexivity).
+    rewrite We in *. rewrite orb_false_r in Hcw. rewrite Hcw. reflexivity.
+  - rewrite drain_done in H by reflexivity. injection H as <- <- <-.
+    assert (We : wire_err c = true) by (unfold wire_err; apply N.eqb_neq in H0; rewrite H0; reflexivity).
+    rewrite We. cbn [negb andb app pool_after]. destruct (c_real c); reflexivity.
+Qed.
+
+(** the code as it was found: the early return did not store *)
+Lemma lifetime_orig_ctx_done : forall c rs, c_ctx_done c = true -> lifetime_orig c rs = Ok ([], [], c_real c).
+Proof.
+  intros c rs H. unfold lifetime_orig, lifetime_gen, do_stream_gen. rewrite H. rewrite drain_done by reflexivity. reflexivity.
 Qed.
